@@ -830,7 +830,8 @@ theorem fastq_roundtrip (off : Int) (hoff : -128 ≤ off ∧ off ≤ 127) (cpl c
   have := qItems_aux off cpl cpl' hoff hcpl es hseq hlen hq hnd es [] rfl
   simpa [fastqItems, qBlocks] using this
 
-/-! ## 4b. `fastq_set_inv` for files without duplicated identifiers -/
+/-! ## 4b. Structure of a parsed file: splitting at an entry; `__delitem__` removes the key
+(for files without duplicated identifiers) -/
 
 /-- `seq_start` of the entry that is being read in a given mode at line `i` -/
 def qModeStart : QMode → Nat → Nat
@@ -1052,27 +1053,7 @@ theorem fastqDel_fresh (f f1 : Fastq) (k : Str) (raw : List QRaw)
     · simp only [List.map_append, List.mem_append, not_or]
       exact ⟨hA, by rw [k2]; exact hB⟩
 
-/-- `fastq_set_inv` under the extra hypothesis `hnodup`: the file does not contain the same
-identifier twice.  (`hoff`/`hq` of the original statement are not needed: `hset` already says that
-the scores could be encoded.) -/
-theorem fastq_set_inv_partial (f f' : Fastq) (id seq : Str) (qs : List Int)
-    (hinv : fastqFind f.lines = .ok f.entries)
-    (hnodup : ∀ raw, qFind .idle 0 f.lines = .ok raw → (raw.map (·.1)).Nodup)
-    (hseq : QSeqOk seq)
-    (hset : fastqSet f id seq qs = .ok f') : fastqFind f'.lines = .ok f'.entries := by
-  apply fastq_set_inv_of_fresh f f' id seq qs hinv ?_ hseq hset
-  intro f1 hd
-  unfold fastqFind at hinv
-  cases hr : qFind .idle 0 f.lines with
-  | error e => rw [hr] at hinv; simp at hinv
-  | ok raw =>
-    rw [hr] at hinv
-    simp only [Except.ok.injEq] at hinv
-    have hnd := hnodup raw hr
-    rw [qOdOfList_nodup raw hnd] at hinv
-    exact fastqDel_fresh f f1 _ raw hr hinv.symm hnd hd
-
-/-! ## Non-vacuity checks and a counterexample -/
+/-! ## Non-vacuity checks -/
 
 /-- round trip on a concrete file whose wrapped score lines are `@+` and `+@` -/
 example :
@@ -1108,15 +1089,14 @@ def qDupFile : Fastq :=
   ⟨["@r".toList, "A".toList, "+".toList, "!".toList, "@r".toList, "C".toList, "+".toList, "!".toList],
    [("r".toList, 5, 6, 7, 8)], 33, none⟩
 
-/-- Why `fastq_set_inv` needs `hfresh`: for a file with a duplicated identifier the model's
-`fastqSet` deletes only the last of the two blocks and then *appends* an entry tuple, so `entries`
-gets the key twice while `_find_entries` on the new lines yields it once.  (All other hypotheses of
-the unconditional statement hold here.) -/
-theorem fastq_set_inv_counterexample :
+/-- the duplicated-identifier case of `fastq_set_inv`: both old blocks are removed (second
+`if identifier in self` test) and the result is consistent -/
+example :
     fastqFind qDupFile.lines = .ok qDupFile.entries ∧
-    ∃ f', fastqSet qDupFile "r".toList "G".toList [0] = .ok f' ∧ fastqFind f'.lines ≠ .ok f'.entries := by
-  refine ⟨by decide,
-    ⟨["@r".toList, "A".toList, "+".toList, "!".toList, "@r".toList, "G".toList, "+".toList, "!".toList],
-     [("r".toList, 1, 2, 3, 4), ("r".toList, 5, 6, 7, 8)], 33, none⟩, by decide, by decide⟩
+    ∃ f', fastqSet qDupFile "r".toList "G".toList [0] = .ok f' ∧
+      f'.lines = ["@r".toList, "G".toList, "+".toList, "!".toList] ∧
+      f'.entries = [("r".toList, 1, 2, 3, 4)] ∧ fastqFind f'.lines = .ok f'.entries :=
+  ⟨by decide, ⟨["@r".toList, "G".toList, "+".toList, "!".toList], [("r".toList, 1, 2, 3, 4)], 33, none⟩,
+   by decide, by decide, by decide, by decide⟩
 
 end BiotiteModel.C12
